@@ -100,6 +100,11 @@ theorem gen_fft_route_shape :
     unfocusOuterIsFftshift = true ∧ unfocusInnerIsIfftshift = true ∧ unfocusUsesOrtho = true ∧
     unfocusTransform = "ifft2" ∧ unfocusPadsWithPad2dQ = true := by decide
 
+/-- `focus_fixed_sampling` / `unfocus_fixed_sampling` hand the same `ary, Q, samples_out, shift` to the matrix-DFT and to
+the chirp-Z engine (the choice of `method` changes the engine only) -/
+theorem gen_dispatch_same_args :
+    focus_fixed_samplingEnginesGetSameArgs = true ∧ unfocus_fixed_samplingEnginesGetSameArgs = true := by decide
+
 /-! ## matrix DFT = unit phase × textbook sum -/
 
 /-- `dft2`/`idft2` with the wiring, exponent scalars and norms of the current source return, for every shape, output
